@@ -58,7 +58,7 @@ PROPS = {
     "C01": {
         "rules": [BR.r_bracket, BR.r_reader_writer, BR.r_fanout, BR.r_columns, FW.r_forward,
                   todo({"push", "index"}, ("Region", "Push")), X.r_iter_readitems,
-                  A.r_freeze, I.r_concat, CD.r_tags, CD.r_bitmap, CD.r_literal_guard],
+                  A.r_freeze, A.r_reject_stored, I.r_concat, CD.r_tags, CD.r_bitmap, CD.r_literal_guard],
         "explanation": "Static analysis of the un-instantiated MIR of every Push/Region impl: decides the structural necessary conditions of the round trip for all instantiations and paths, not the value equality itself.",
         "decided": [
             "R-BRACKET: every non-forwarding push of a (start,end)/position-indexed storage returns (len before its appends, len after) resp. len-1-seed, with exactly the appends on that storage in between",
@@ -73,7 +73,7 @@ PROPS = {
         "not_decided": ["element-for-element equality of values, NaN/ZST/extreme values, panics inside std", COMMON_ND],
     },
     "C02": {
-        "rules": [A.r_append, A.r_freeze, CO.r_collapse_push],
+        "rules": [A.r_append, A.r_freeze, A.r_reject_stored, I.r_concat, CO.r_collapse_push],
         "thorough": [X.witness("C02")],
         "explanation": "Every body reachable from the write/reserve API (closures and local helpers included) is scanned for destructive, clearing or replacing effects on item storage; the one Vec::pop is justified by R-PEEL; the representation switches are guarded (R-GUARD).",
         "decided": [
@@ -111,7 +111,7 @@ PROPS = {
         "not_decided": ["that the inner byte region returns exactly the pushed byte range (C01/C02 clauses)", "deserialising foreign data"],
     },
     "C05": {
-        "rules": [I.r_ovf, I.r_panic_edges, I.r_nowrite_on_reject, A.r_freeze, I.r_concat, I.r_stride_iter,
+        "rules": [I.r_ovf, I.r_panic_edges, I.r_nowrite_on_reject, A.r_freeze, A.r_reject_stored, I.r_concat, I.r_stride_iter,
                   B.r_bound_stride_sites, B.r_index_failstop, only(L.r_reset, {"Stride", "IndexList", "IndexOptimized"})],
         "explanation": "Overflow-checked arithmetic is visible in MIR as Assert(Overflow) terminators; taint from pushed values is propagated through the Stride state; the representation order of the two-level containers is checked for agreement between push, index, len, is_empty, iter and clear.",
         "decided": [
@@ -166,7 +166,7 @@ PROPS = {
     "C10": {
         "rules": [L.r_reserve_only, L.r_fresh, L.r_seed,
                   todo({"reserve_items", "reserve_regions", "merge_regions", "reserve", "with_capacity"}),
-                  CD.r_tags, CD.r_bitmap],
+                  CD.r_tags, CD.r_bitmap, HF.r_code_source],
         "explanation": "Reserve paths may only read/measure/reserve; merged regions are built from empty-sized constructors and seeded like default().",
         "decided": ["R-RESERVE-ONLY", "R-FRESH", "R-SEED", "R-TODO", "for the dictionary-coded region, the merged codec's reader and writer tables agree (R-TAGS/R-BITMAP)"],
         "not_decided": ["capacity amounts (C17)"],
@@ -181,7 +181,8 @@ PROPS = {
     },
     "C12": {
         "rules": [only(BR.r_bracket, DENSE_ONLY), only(L.r_seed, DENSE_ONLY), only(L.r_reset, DENSE_ONLY),
-                  BR.r_reader_writer, BR.r_columns, only(A.r_append, DENSE_ONLY), only(L.r_fresh, DENSE_ONLY)],
+                  BR.r_reader_writer, BR.r_columns, only(A.r_append, DENSE_ONLY), only(L.r_fresh, DENSE_ONLY),
+                  BR.r_bracket, A.r_freeze, A.r_reject_stored, I.r_concat],
         "explanation": "Dense indices follow from one append of the end offset per push, the seeded leading 0 and index(k) = (offsets[k], offsets[k+1]).",
         "decided": ["R-BRACKET with seed 1 for ConsecutiveIndexPairs", "R-SEED: exactly one leading 0 in default/merge_regions/clear", "R-READER: index(k) reads offsets k and k+1 in order",
                     "R-COLUMNS: ColumnsRegion returns the inner dense index unchanged, creates missing columns first, rows carry exactly their own index slice",
@@ -196,7 +197,7 @@ PROPS = {
         "not_decided": [COMMON_ND],
     },
     "C14": {
-        "rules": [O.r_onto, O.r_onto_nopanic, O.r_owned_conversions, O.r_reborrow, FW.r_forward, FW.r_sibling,
+        "rules": [O.r_onto, O.r_onto_nopanic, O.r_zip_byref, O.r_owned_conversions, O.r_reborrow, FW.r_forward, FW.r_sibling,
                   HF.r_stats_and_arms, BR.r_bracket],
         "explanation": "clone_onto must overwrite its target on every path (and force its length), reborrow is the identity, borrow_as/into_owned are built from the whole value.",
         "decided": ["R-ONTO (every path overwrites the target and forces its length; no access bounded by the target's previous length)", "R-WHOLE", "R-REBORROW",
@@ -218,13 +219,13 @@ PROPS = {
         "assumptions": ["only meaningful in the serde feature configuration"],
     },
     "C17": {
-        "rules": [AL.r_cover_merge, AL.r_cover_reserve, AL.r_reserve_items_agree, AL.r_reserve_exact_count, AL.r_noalloc],
+        "rules": [AL.r_cover_merge, AL.r_cover_reserve, AL.r_cover_reserve_vec, AL.r_reserve_items_agree, AL.r_reserve_exact_count, AL.r_noalloc],
         "explanation": "Pre-sizing must cover every storage field from the same-named field of the sources; push paths of non-coded regions build no temporaries and never exact-fit.",
         "decided": ["R-COVER(merge_regions)", "R-COVER(reserve_regions)", "R-RESERVE-ITEMS", "R-NOALLOC / R-AMORTISED"],
         "not_decided": ["the amounts themselves, allocator call counts, the O(log n) bound"],
     },
     "C18": {
-        "rules": [L.r_cover_heap, L.r_retain, todo({"heap_size"})],
+        "rules": [L.r_cover_heap, L.r_retain, L.r_retain_noshrink, todo({"heap_size"})],
         "explanation": "heap_size must forward the caller's callback to every storage field and report (len-derived, capacity-derived) in that order.",
         "decided": ["R-COVER(heap_size)", "R-RETAIN: clear() never replaces a storage whose capacity is reported", "R-TODO"],
         "not_decided": ["the byte lower bound against a reference model"],
